@@ -233,6 +233,16 @@ package builder
 //@ func (*uploadOutputsState).uploadOutputDirectoryEntered
 //@   props C10
 //@   at call uploadDirectory#1 assert every-tree-starts-empty: len(dState.directories) == 0 && len(dState.directoriesSeen) == 0
+//@   loop 1 invariant the-last-collected-directory-is-written-first-as-the-root-and-all-others-as-children:
+//@             i >= 0 && i <= len(directories) && tag == ite(i == len(directories), 10, 18) && storefailed(nil) == 0
+//@   loop 0 invariant storefailed(nil) == 0
+//@   at call AppendVarint#1 assert each-directory-is-framed-with-its-own-length: i >= 1 && i <= len(directories) && arg1 == len(directories[i-1])
+//@   at call Put#1 ghostset storefailed[nil] = ite(r0 != nil, 1, storefailed(nil))
+//@   at call Put#2 ghostset storefailed[nil] = ite(r0 != nil, 1, storefailed(nil))
+//@   loop 2 invariant storefailed(nil) == 1 ==> !successfullyUploaded
+//@   loop 3 invariant storefailed(nil) != 1
+//@   ensures an-output-directory-whose-upload-failed-is-not-reported:
+//@             storefailed(nil) == 1 ==> len(s.actionResult.OutputDirectories) == old(len(s.actionResult.OutputDirectories))
 
 // Every declared output is looked at: the outputs that resolve to the input
 // root and the tree of all other outputs, whatever the first found; and a
